@@ -4,30 +4,38 @@
    variable payloads; the harness concretises (harness/reqgamma.py), runs the four entry-point configurations and the
    response judge (GqlResponse) checks the format clauses against this outcome.
    Document menu: [parses, valid, ops (operation names, "" = anonymous), needs (variable the selected operation requires),
-                   errs (response paths that must carry exactly one error when executed)]                                  *)
+                   errs (response paths that must carry exactly one error when executed),
+                   opt (an optional Boolean variable with a declared default steers a @skip / @include)]                                  *)
 EXTENDS Naturals, Sequences, FiniteSets, TLC, Json
 Docs == [
-  anon      |-> [parses |-> TRUE,  valid |-> TRUE,  ops |-> {""},       needs |-> "",  errs |-> {}, sub |-> FALSE],
-  namedA    |-> [parses |-> TRUE,  valid |-> TRUE,  ops |-> {"A"},      needs |-> "",  errs |-> {}, sub |-> FALSE],
-  twoOps    |-> [parses |-> TRUE,  valid |-> TRUE,  ops |-> {"A", "B"}, needs |-> "",  errs |-> {}, sub |-> FALSE],
-  needsVar  |-> [parses |-> TRUE,  valid |-> TRUE,  ops |-> {"A"},      needs |-> "v", errs |-> {}, sub |-> FALSE],
-  syntaxErr |-> [parses |-> FALSE, valid |-> FALSE, ops |-> {},         needs |-> "",  errs |-> {}, sub |-> FALSE],
-  syntaxEsc |-> [parses |-> FALSE, valid |-> FALSE, ops |-> {},         needs |-> "",  errs |-> {}, sub |-> FALSE],
-  invalid   |-> [parses |-> TRUE,  valid |-> FALSE, ops |-> {""},       needs |-> "",  errs |-> {}, sub |-> FALSE],
-  invalidCR |-> [parses |-> TRUE,  valid |-> FALSE, ops |-> {""},       needs |-> "",  errs |-> {}, sub |-> FALSE],
-  failing   |-> [parses |-> TRUE,  valid |-> TRUE,  ops |-> {""},       needs |-> "",  errs |-> {"nn", "err", "items/0/nnitem", "items/2/nnitem", "items/1/erritem"}, sub |-> FALSE],
-  listArgs  |-> [parses |-> TRUE,  valid |-> TRUE,  ops |-> {"A"},      needs |-> "",  errs |-> {}, sub |-> FALSE],   \* execution-time argument coercion under a list: only the generic clauses apply
-  floats    |-> [parses |-> TRUE,  valid |-> TRUE,  ops |-> {""},       needs |-> "",  errs |-> {}, sub |-> FALSE],
+  anon      |-> [parses |-> TRUE,  valid |-> TRUE,  ops |-> {""},       needs |-> "",  errs |-> {}, sub |-> FALSE, opt |-> FALSE],
+  namedA    |-> [parses |-> TRUE,  valid |-> TRUE,  ops |-> {"A"},      needs |-> "",  errs |-> {}, sub |-> FALSE, opt |-> FALSE],
+  twoOps    |-> [parses |-> TRUE,  valid |-> TRUE,  ops |-> {"A", "B"}, needs |-> "",  errs |-> {}, sub |-> FALSE, opt |-> FALSE],
+  needsVar  |-> [parses |-> TRUE,  valid |-> TRUE,  ops |-> {"A"},      needs |-> "v", errs |-> {}, sub |-> FALSE, opt |-> FALSE],
+  syntaxErr |-> [parses |-> FALSE, valid |-> FALSE, ops |-> {},         needs |-> "",  errs |-> {}, sub |-> FALSE, opt |-> FALSE],
+  syntaxEsc |-> [parses |-> FALSE, valid |-> FALSE, ops |-> {},         needs |-> "",  errs |-> {}, sub |-> FALSE, opt |-> FALSE],
+  invalid   |-> [parses |-> TRUE,  valid |-> FALSE, ops |-> {""},       needs |-> "",  errs |-> {}, sub |-> FALSE, opt |-> FALSE],
+  invalidCR |-> [parses |-> TRUE,  valid |-> FALSE, ops |-> {""},       needs |-> "",  errs |-> {}, sub |-> FALSE, opt |-> FALSE],
+  failing   |-> [parses |-> TRUE,  valid |-> TRUE,  ops |-> {""},       needs |-> "",  errs |-> {"nn", "err", "items/0/nnitem", "items/2/nnitem", "items/1/erritem"}, sub |-> FALSE, opt |-> FALSE],
+  listArgs  |-> [parses |-> TRUE,  valid |-> TRUE,  ops |-> {"A"},      needs |-> "",  errs |-> {}, sub |-> FALSE, opt |-> FALSE],   \* execution-time argument coercion under a list: only the generic clauses apply
+  floats    |-> [parses |-> TRUE,  valid |-> TRUE,  ops |-> {""},       needs |-> "",  errs |-> {}, sub |-> FALSE, opt |-> FALSE],
   \* a SUBSCRIPTION operation submitted to the query entry points: they cannot execute it; the outcome is a response with an
   \* error (class "noop": no operation this entry point can run), never an exception
-  subscr    |-> [parses |-> TRUE,  valid |-> TRUE,  ops |-> {"S"},      needs |-> "",  errs |-> {}, sub |-> TRUE]
+  \* the operation declares an OPTIONAL variable with a default ($v: Boolean = true) and uses it as the condition of @include at
+  \* the root / @skip below a list field: valid (a variable with a default may stand in a non-null position); an explicit null for
+  \* it is an accepted variable value that the directive cannot take - the request cannot be executed as written and the outcome
+  \* is a response carrying an error (class "execfail"), never an exception
+  dirRoot   |-> [parses |-> TRUE,  valid |-> TRUE,  ops |-> {"A"},      needs |-> "",  errs |-> {}, sub |-> FALSE, opt |-> TRUE],
+  dirNested |-> [parses |-> TRUE,  valid |-> TRUE,  ops |-> {"A"},      needs |-> "",  errs |-> {}, sub |-> FALSE, opt |-> TRUE],
+  subscr    |-> [parses |-> TRUE,  valid |-> TRUE,  ops |-> {"S"},      needs |-> "",  errs |-> {}, sub |-> TRUE,  opt |-> FALSE]
 ]
 DocIds == DOMAIN Docs
 OpNames == {"", "A", "B", "X"}          \* "" = no operation name supplied
 VarPayloads == {"none", "ok", "wrongtype", "null"}
 VARIABLES doc, opname, vars
 v == <<doc, opname, vars>>
-Init == doc \in DocIds /\ opname \in OpNames /\ vars \in VarPayloads
+\* (Boolean variables take any JSON value - scalar leniency, Appendix B.9 - so "wrongtype" says nothing about the opt documents)
+Init == doc \in DocIds /\ opname \in OpNames /\ vars \in VarPayloads /\ (Docs[doc].opt => vars # "wrongtype")
 Next == FALSE /\ UNCHANGED v
 Spec == Init /\ [][Next]_v
 D == Docs[doc]
@@ -39,9 +47,10 @@ Outcome == IF ~D.parses THEN "syntax"
            ELSE IF Selected = "none" THEN "noop"
            ELSE IF D.needs # "" /\ vars # "ok" THEN "badvars"
            ELSE IF D.sub THEN "noop"
+           ELSE IF D.opt /\ vars = "null" THEN "execfail"
            ELSE "executed"
 Out == PrintT("REQ " \o ToJson([doc |-> doc, opname |-> opname, vars |-> vars, outcome |-> Outcome,
                                 errs |-> (IF Outcome = "executed" THEN D.errs ELSE {})]))
 \* R1: outcome classes are exhaustive and data-bearing only after successful parse + validation
-Sane == Outcome \in {"syntax", "invalid", "noop", "badvars", "executed"} /\ (Outcome = "executed" => D.parses /\ D.valid)
+Sane == Outcome \in {"syntax", "invalid", "noop", "badvars", "execfail", "executed"} /\ (Outcome = "executed" => D.parses /\ D.valid)
 =============================================================================
